@@ -9,6 +9,7 @@ from .. import anchors as A
 from ..model import AnalysisError, Project, call_name, kwarg, walk_local
 from ..models import ModelTable
 from ..report import Report
+from ..roles import canonical_fallback
 from ..typed import typed_facts
 from .c09 import fallback_defs
 
@@ -27,8 +28,9 @@ def check(P: Project, R: Report) -> None:
     R.rule("R1", "wire names at library serialisers (type-resolved): every model_dump/model_dump_json call in library code whose receiver type (mypy) is, or may contain, a class with an aliased field passes by_alias=True; Any-typed receivers are a frozen table with reasons")
     R.rule("R2", "unknown members survive: no model class sets `extra` to anything but 'allow'; the fallback's constructor keeps leftover keys and its dump iterates the instance dict")
     R.rule("R3", "alias table: every field named `meta` aliases `_meta`, every field with a trailing underscore aliases the stripped name; both backends populate by name and by alias and emit the alias under by_alias")
-    T = ModelTable(P)
     facts = typed_facts(P)
+    P = canonical_fallback(P, A.MOD_BASE)  # fallback helpers found by role, then read under canonical names
+    T = ModelTable(P)
     R.extra["mypy"] = facts.get("mypy")
     R.extra["mypy_cached"] = facts.get("cached")
 
